@@ -9,7 +9,7 @@ import tempfile
 
 import vlib
 
-ELEMS = {"TC1": 1, "TC4": 4, "TC12": 12, "TR": 20, "NTR": 21, "PTT": 22, "PTN": 23}
+ELEMS = {"TC1": 1, "TC4": 4, "TC12": 12, "TC32": 32, "TR": 20, "NTR": 21, "PTT": 22, "PTN": 23}
 ALLOCS = {"amc": 0, "std": 1, "ledgerstd": 2, "ledgerrealloc": 3, "ledgerbasic": 4}
 FLAV = {"vector": 0, "small": 1, "fixed": 2, "fixedu": 3}
 TRACKED = ("TR", "NTR", "PTT", "PTN")
@@ -108,7 +108,7 @@ class Eng:
 
 
 def _vcat(i):
-    return {"TC1": "TC", "TC4": "TC", "TC12": "TC", "TR": "TR", "PTT": "TR", "NTR": "NTR", "PTN": "NTR"}[i["elem"]]
+    return {"TC1": "TC", "TC4": "TC", "TC12": "TC", "TC32": "TC", "TR": "TR", "PTT": "TR", "NTR": "NTR", "PTN": "NTR"}[i["elem"]]
 
 
 def _vkind(i):
